@@ -53,8 +53,8 @@ func (in *inliner) normalizeWaitGroupGo(pkgs []*packages.Package, excluded func(
 						continue
 					}
 					pos := call.Pos()
-					wg1 := cloneNode(wg, func(_, _ *ast.Ident) {}).(ast.Expr)
-					wg2 := cloneNode(wg, func(_, _ *ast.Ident) {}).(ast.Expr)
+					wg1 := cloneNode(wg, func(orig, cp *ast.Ident) { in.origOf[cp] = orig }).(ast.Expr)
+					wg2 := cloneNode(wg, func(orig, cp *ast.Ident) { in.origOf[cp] = orig }).(ast.Expr)
 					add := &ast.ExprStmt{X: &ast.CallExpr{
 						Fun:    &ast.SelectorExpr{X: wg1, Sel: &ast.Ident{NamePos: pos, Name: "Add"}},
 						Lparen: pos,
